@@ -84,7 +84,9 @@ func (enc *encoder) encodeAny(anyField j5reflect.AnyField) error {
 	var jsonData []byte
 	if val.J5Json != nil {
 		jsonData = val.J5Json
-	} else if val.Proto != nil {
+	} else {
+		// no pre-encoded JSON: the payload is the proto encoding, which is
+		// empty (unset) for a message without any populated field
 
 		mt, err := enc.codec.resolver.FindMessageByName(protoreflect.FullName(val.TypeName))
 		if err != nil {
